@@ -568,15 +568,15 @@ def gen_defs(tier, seed):
         crates.append(ds)
     return crates
 
-def run(tier, seed, work, repo, suspects=None):
+def run(tier, seed, work, repo, suspects=None, strict_suspects=None):
     """suspects: definitions on which the token-level tie found the expansion to differ from the
     model's; they are compiled (with harness types) and driven edge by edge, so that a broken tie comes
     with a concrete failing input whenever the difference is behavioural"""
     cfg = TIERS[tier]
     crates = gen_defs(tier, seed)
-    if suspects:
+    if suspects or strict_suspects:
         ds = []
-        for k, (feature, d, orig_id) in enumerate(suspects):
+        for k, (feature, d, orig_id) in enumerate(suspects or []):
             try:
                 td = T.t3ify(d)
             except Exception:
@@ -589,6 +589,10 @@ def run(tier, seed, work, repo, suspects=None):
                            'mod': 3000 + k, 'suspect': True, 'twin_of': f'sus{k}', 'twin_kind': 'ren', 'hook_map': mapping})
             except Exception:
                 pass
+        # definitions built here around identifiers (harness-compatible by construction): a compile failure counts
+        for k, (feature, d, orig_id) in enumerate(strict_suspects or []):
+            ds.append({'id': f'nsus{k}', 'feature': bool(feature), 'def': d, 'family': 'suspect', 'crate': len(crates),
+                       'mod': 5000 + k, 'suspect': True, 'strict': True, 'style_id': orig_id})
         # one crate per feature setting
         for feat in (False, True):
             sub = [x for x in ds if x['feature'] == feat]
@@ -669,7 +673,7 @@ def run(tier, seed, work, repo, suspects=None):
     result['compile_failures'] = []
     rng = random.Random(seed * 31 + 5)
     for uname, uds, berr in built:
-        if berr is not None and all(x.get('suspect') for x in uds):
+        if berr is not None and all(x.get('suspect') and not x.get('strict') for x in uds):
             result['suspects_not_built'] = result.get('suspects_not_built', 0) + len(uds)
             continue
         if berr is not None:
